@@ -213,6 +213,11 @@ impl VM {
                 }),
                 pos,
             )?;
+        } else {
+            return Err(Error::new(
+                format!("No cast from {} to {}", val, t).into(),
+                pos,
+            ));
         }
         Ok(())
     }
